@@ -49,7 +49,7 @@ def run(prop, tier, ents, rule, static_clauses=("drivers", "variables"), extra_a
         for e in accepted:
             ob = vlib.read_obs(obs[e["name"]])
             if ob["reader"] == "ok":
-                srecs.append({"id": e["name"], "ast": ob["ast"], "ifaces": {}})
+                srecs.append({"id": e["name"], "ast": ob["ast"], "ifaces": {}, "typecheck": 0, "top": e["name"].lower()})
         sres = vlib.run_tlc_shards("MC_Static.tla", "MC_Static.cfg", [{"designs": s} for s in vlib.shard(srecs, vlib.NCPU)], scratch, timeout=1200) if srecs else []
         static_checked = 0
         for r in sres:
